@@ -18,7 +18,10 @@ LB3 == 3
 
 Strings(alpha, maxlen) == UNION {[1..k -> alpha] : k \in 0..maxlen}
 
-InputsOf(d) == Strings(d.alpha, d.maxlen + LenBonus)
+\* a declaration may name its inputs explicitly (long ones: sizes and distances beyond what "all strings up to n" can reach)
+InputsOf(d) == IF "inputs" \in DOMAIN d THEN d.inputs ELSE Strings(d.alpha, d.maxlen + LenBonus)
+RepB(b, n) == [i \in 1..n |-> b]
+WithInputs(d, ins) == [prog |-> d.prog, root |-> d.root, alpha |-> d.alpha, maxlen |-> d.maxlen, starts |-> d.starts, inputs |-> ins]
 StartsOf(d) == d.starts
 PrefixOf(d, s) == [i \in 1..s |-> 238]
 
@@ -99,6 +102,24 @@ U_C06(zz) ==
                 {0, 1, 2}, 5, {0, 2}) : md \in {SzField("pre"), SzMarker(<<0>>, FALSE, TRUE), SzMarker(<<0>>, TRUE, TRUE)},
                                         w \in {-1, 2}}
 
+\* -------------------------------------------------------------------- long inputs
+\* sizes above 256, delimited values longer than 512 bytes, counts above 256, two- and three-digit fixed sizes: a handful of
+\* explicit inputs per declaration (complete, cut short by one byte, one byte too long)
+Cuts(x) == {x, SubSeq(x, 1, Len(x) - 1), x \o <<1>>}
+U_Long(zz) ==
+    {WithInputs(DeclP([C0 |-> Class(DefaultOpts, <<IntF("n", 2, FALSE, "default"), DataF("d", md), U1("z")>>)], {1}, 0, {0, 1}),
+                Cuts(RepB(1, 260))) : md \in {SzField("n"), Defer(EBin("add", EF("n"), EC(0))), Lam(EF("n"))}}
+    \cup {WithInputs(DeclP([C0 |-> Class([DefaultOpts EXCEPT !.sbl = w], <<U1("a"), DataF("d", SzMarker(<<0>>, inc, TRUE)), U1("z")>>)], {65}, 0, {0, 3}),
+                     Cuts(<<7>> \o RepB(65, 520) \o <<0, 9>>)) : inc \in BOOLEAN, w \in {-1, 600}}
+    \cup {WithInputs(DeclP([C0 |-> Class(DefaultOpts, <<U1("a"), DataF("d", SzMarker(<<65, 66>>, FALSE, TRUE)), U1("z")>>)], {65}, 0, {0, 1}),
+                     Cuts(<<7>> \o RepB(65, 515) \o <<66, 9>>))}
+    \cup {WithInputs(DeclP([C0 |-> Class(DefaultOpts, <<U1("a"), DataF("d", SzRegex("Xplus", TRUE, TRUE)), U1("z")>>)], {65}, 0, {0, 2}),
+                     Cuts(<<7>> \o RepB(65, 300) \o RepB(88, 3) \o <<9>>))}
+    \cup {WithInputs(DeclP([C0 |-> Class(DefaultOpts, <<IntF("n", 2, FALSE, "default"), RepCountF("r", U1("e"), SzField("n"), NoCond, 0), U1("z")>>)], {1}, 0, {0}),
+                     Cuts(RepB(1, 260)))}
+    \cup {WithInputs(DeclP([C0 |-> Class(DefaultOpts, <<U1("a"), DataF("d", SzConst(k)), IntF("z", 2, FALSE, "default")>>)], {65}, 0, {0, 1}),
+                     Cuts(RepB(65, k + 3))) : k \in {11, 33, 100, 111}}
+
 \* -------------------------------------------------------------------- C07
 \* all compositions of `total` bits into consecutive Bits fields
 RECURSIVE Compositions(_)
@@ -169,6 +190,16 @@ U_C08_Shared(zz) == {CtlDecl(<<U1("t"), RefSelSharedF("v", EF("t"), SharedAlts, 
                            RefSelSharedF("w", EF("t"), SharedAlts, "T1", IntV(0)), U1("z")>>, 6),
                  CtlDecl(<<U1("t"), U1("n"), RepCountF("r", RefSelSharedF("e", EF("t"), SharedAlts, "T1", IntV(0)), SzField("n"), NoCond, 0),
                            RefSelSharedF("w", EF("t"), SharedAlts, "T1", IntV(0))>>, 6)}
+\* a packet INSTANCE handed out by a selector: its optional field (declared default 7) is absent in the input -> None;
+\* a class whose size expression is evaluated on its own packets and, embedded, on the embedding class's packets
+SubOpt == Class(DefaultOpts, <<U1("t"), [OptF("o", U1("e"), SzField("t")) EXCEPT !.dflt = IntV(7)], U1("y")>>)
+SubExpr == Class(DefaultOpts, <<U1("x"), DataF("y", Defer(EBin("add", EF("x"), EC(1))))>>)
+U_C08_Sel(zz) == {DeclP([C0 |-> Class(DefaultOpts, <<U1("k"), RefSelF("v", EF("k"), <<[key |-> 0, alt |-> RefF("", "C1")], [key |-> 1, alt |-> IntF("", 1, FALSE, "default")]>>,
+                                                                      fm, IntV(0)), U1("z")>>), C1 |-> SubOpt], {0, 1, 2}, 5, {0}) : fm \in {"lambda", "chooses"}}
+             \cup {DeclP([C0 |-> Class(DefaultOpts, <<U1("n"), RepCountF("r", RefSelF("e", EC(0), <<[key |-> 0, alt |-> RefF("", "C1")]>>, "lambda", IntV(0)), SzField("n"), NoCond, 0)>>),
+                          C1 |-> SubOpt], {0, 1, 2}, 6, {0}),
+                    DeclP([C0 |-> Class(DefaultOpts, Embedded("p", "C1", <<>>, SubExpr.fields) \o <<RefF("s", "C1"), U1("z")>>), C1 |-> SubExpr], {0, 1, 2}, 6, {0}),
+                    DeclP([C0 |-> Class(DefaultOpts, <<RefF("s", "C1")>> \o Embedded("p", "C1", <<>>, SubExpr.fields)), C1 |-> SubExpr], {0, 1, 2}, 6, {0})}
 \* the controlling field is a DESCRIBED field (parsing reads what the bytes said, not what the descriptor computes)
 AutoLenOf(f, of) == WithDesc(f, [kind |-> "autolen", of |-> of])
 AutoE(f, e) == WithDesc(f, [kind |-> "auto", e |-> e])
@@ -192,6 +223,7 @@ U_C08_Emb(zz) == {DeclP([C0 |-> Class(DefaultOpts, <<U1("h")>> \o Embedded("p", 
                          C1 |-> Class(DefaultOpts, Embedded("p", "C2", <<>>, Sub1.fields) \o <<OptF("o", U1("e"), Lam(EF("x")))>>),
                          C2 |-> Sub1], {0, 1, 2}, 5, {0})}
 U_C08(zz) == U_C08_Count(0) \cup U_C08_Until(0) \cup U_C08_Opt(0) \cup U_C08_Nest(0) \cup U_C08_Shared(0) \cup U_C08_Desc(0) \cup U_C08_Emb(0)
+             \cup U_C08_Sel(0)
 
 \* -------------------------------------------------------------------- C10
 Refs == {"innermost-pkt", "begins", "current-offset"}
@@ -237,7 +269,14 @@ U_C10_Desc(zz) == {DeclP([C0 |-> Class(DefaultOpts, <<AutoE(U1("a"), EC(2)), MvF
                            C1 |-> Class(DefaultOpts, <<AutoLenOf(U1("a"), "d"),
                                                        MvField(DataF("d", SzConst(1)), [kind |-> "at", arg |-> SzField("a"), ref |-> "innermost-pkt"])>>)],
                           {0, 1, 2, 3}, 5, {0})}
-U_C10(zz) == U_C10_Flat(0) \cup U_C10_Nest(0) \cup U_C10_Class(0) \cup U_C10_Elem(0) \cup U_C10_Back(0)
+\* callables of Move targets that read the keywords `innermost-pkt-pos` and `root`, one level down and below an optional
+U_C10_Kw(zz) == {DeclP([C0 |-> Class(DefaultOpts, <<U1("h"), U1("w"), wrap, U1("t")>>),
+                        C1 |-> Class(DefaultOpts, <<U1("a"), MvField(U1("b"), mv), U1("c")>>)], {0, 1, 2}, 6, {0}) :
+                   wrap \in {RefF("s", "C1"), OptF("s", RefF("e", "C1"), SzField("w"))},
+                   mv \in {[kind |-> "at", arg |-> Lam(EBin("add", EIPos, EC(2))), ref |-> "begins"],
+                           [kind |-> "at", arg |-> Lam(EBin("add", ERoot("w"), EC(1))), ref |-> "innermost-pkt"],
+                           [kind |-> "shift", arg |-> Lam(ERoot("w")), ref |-> "current-offset"]}}
+U_C10(zz) == U_C10_Kw(0) \cup U_C10_Flat(0) \cup U_C10_Nest(0) \cup U_C10_Class(0) \cup U_C10_Elem(0) \cup U_C10_Back(0)
 
 \* -------------------------------------------------------------------- C03
 \* runs of fixed-size fields with and without a struct code, mixed byte order and signedness, variable
@@ -263,9 +302,9 @@ U_C03_Mixed(zz) ==
           DeclP([C0 |-> Class(DefaultOpts, <<U1("a")>> \o Embedded("p", "C1", <<>>, Sub1.fields)
                                            \o <<DataF("m", SzMarker(<<0>>, FALSE, TRUE)), IntF("t", 3, FALSE, "default"), U1("z")>>), C1 |-> Sub1],
                 {0, 1, 2}, 7, {0})}
-U_C03(zz) == U_C03_Fixed(0) \cup U_C03_Mixed(0)
+U_C03(zz) == U_C03_Fixed(0) \cup U_C03_Mixed(0) \cup U_Long(0)
 U_C03_Q(zz) == {d \in U_C03_Fixed(0) : d.prog["C0"].opts.endian = "little" \/ d.prog["C0"].fields[1].k = "Data"
-                                 \/ (d.prog["C0"].fields[1].k = "Int" /\ d.prog["C0"].fields[1].n \in {1, 3})} \cup U_C03_Mixed(0)
+                                 \/ (d.prog["C0"].fields[1].k = "Int" /\ d.prog["C0"].fields[1].n \in {1, 3})} \cup U_C03_Mixed(0) \cup U_Long(0)
 
 \* -------------------------------------------------------------------- C12
 \* nested declarations driven into failure at every depth
@@ -295,6 +334,11 @@ U_C12(zz) ==
      DeclP([C0 |-> Class(DefaultOpts, <<U1("h"), RefF("s", "C1"), U1("t")>>),
             C1 |-> Class(DefaultOpts, <<WithDesc(U1("n"), [kind |-> "verify", e |-> EUn("len", EF("d"))]), DataF("d", SzMarker(<<0>>, FALSE, TRUE))>>)],
            {0, 1, 65}, 5, {0}),
+     \* two described fields whose descriptors bring DIFFERENT hooks (before-pack only / after-unpack only): a failing hook
+     \* is reported under the name of its own field
+     DeclP([C0 |-> Class(DefaultOpts, <<WithDesc(U1("n"), [kind |-> "autolen", of |-> "d"]),
+                                        WithDesc(U1("m"), [kind |-> "check", e |-> EUn("len", EF("d"))]), DataF("d", SzMarker(<<0>>, FALSE, TRUE))>>)],
+           {0, 1, 2, 65}, 5, {0, 1}),
      \* corrupted length fields: a signed length, a length expression that goes negative
      DeclP([C0 |-> Class(DefaultOpts, <<U1("h"), RefF("s", "C1"), U1("t")>>),
             C1 |-> Class(DefaultOpts, <<S1("n"), DataF("d", SzField("n")), U1("z")>>)], {0, 1, 2, 254, 255}, 5, {0, 1}),
@@ -346,6 +390,10 @@ U_C01_Overlap(zz) == {DeclP([C0 |-> Class(DefaultOpts, <<U1("a"), DataF("b", SzC
                                                     MvField(DataF("c", SzField("a")), [kind |-> "at", arg |-> g, ref |-> "innermost-pkt"]),
                                                     MvField(U1("d"), [kind |-> "at", arg |-> SzConst(h), ref |-> "begins"])>>)],
                         {0, 1, 2, 46}, 5, {0}) : g \in {SzConst(0), SzConst(2), SzConst(3), SzConst(4)}, h \in {1, 3, 5}}
+U_C01_OverlapEm(zz) == {DeclP([C0 |-> Class(DefaultOpts, <<MvField(EmF("e"), [kind |-> "at", arg |-> SzConst(2), ref |-> "innermost-pkt"]),
+                                                          MvField(DataF("b", SzConst(2)), [kind |-> "at", arg |-> SzConst(3), ref |-> "innermost-pkt"]),
+                                                          MvField(DataF("c", SzConst(n)), [kind |-> "at", arg |-> SzConst(1), ref |-> "innermost-pkt"])>>)],
+                              {0, 1, 46}, 5, {0, 1}) : n \in {2, 4}}
 U_C01_Before(zz) == {DeclP([C0 |-> Class(DefaultOpts, <<MvField(DataF("a", SzConst(n1)), [kind |-> "at", arg |-> SzConst(p1), ref |-> "innermost-pkt"]),
                                                      MvField(DataF("b", SzConst(n2)), [kind |-> "at", arg |-> SzConst(p2), ref |-> "innermost-pkt"])>>)],
                        {0, 1, 46}, 6, {0, 1}) : n1 \in {1, 2}, p1 \in {2, 4}, n2 \in {1, 3, 4}, p2 \in {0, 1, 2}}
@@ -368,10 +416,10 @@ U_C01_Root(zz) == {DeclP([C0 |-> Class(DefaultOpts, <<U1("w"), RefF("s", "C1"), 
                            C1 |-> Class(DefaultOpts, <<U1("h"), RefF("s", "C2")>>),
                            C2 |-> Class(DefaultOpts, <<U1("t"), x>>)], {0, 1, 2}, 6, {0}) :
                       x \in {DataF("d", Lam(ERoot("w"))), OptF("o", DataF("e", Lam(ERoot("w"))), SzField("t"))}}
-U_C01(zz) == U_C08_Shared(0) \cup U_C01_Root(0) \cup U_C01_Before(0) \cup U_C10_Back(0) \cup U_C01_Data(0) \cup U_C01_Move(0) \cup U_C01_Ctl(0) \cup U_C01_Overlap(0) \cup U_C07_24(0) \cup U_C07_Ctx(0)
+U_C01(zz) == U_C08_Shared(0) \cup U_C08_Sel(0) \cup U_C01_Root(0) \cup U_C01_OverlapEm(0) \cup U_C01_Before(0) \cup U_C10_Back(0) \cup U_C01_Data(0) \cup U_C01_Move(0) \cup U_C01_Ctl(0) \cup U_C01_Overlap(0) \cup U_C07_24(0) \cup U_C07_Ctx(0)
 
 \* the every-change subset: every family is represented, the cross products are thinned
-U_C01_Q(zz) == U_C08_Shared(0) \cup U_C01_Root(0) \cup U_C01_Data(0) \cup U_C01_Overlap(0) \cup U_C07_24(0) \cup U_C01_Before(0) \cup U_C10_Back(0)
+U_C01_Q(zz) == U_C08_Shared(0) \cup U_C08_Sel(0) \cup U_C01_Root(0) \cup U_C01_OverlapEm(0) \cup U_C01_Data(0) \cup U_C01_Overlap(0) \cup U_C07_24(0) \cup U_C01_Before(0) \cup U_C10_Back(0)
            \cup {[d EXCEPT !.alpha = {0, 1, 46}] : d \in U_C10_Class(0) \cup U_C10_Elem(0)}
            \cup {[d EXCEPT !.alpha = {0, 2, 46}, !.starts = {0}] : d \in U_C10_Flat(0)}
            \cup U_C08_Until(0) \cup U_C08_Nest(0)
@@ -394,9 +442,9 @@ U_C14_End(zz) ==
      DeclP([C0 |-> Class(DefaultOpts, <<U1("n"), RepCountF("r", DataF("e", SzConst(0)), SzField("n"), NoCond, 0)>>)], {0, 1, 3}, 3, {0, 1}),
      DeclP([C0 |-> Class(DefaultOpts, <<U1("n"), RepCountF("r", RefF("e", "C1"), SzField("n"), NoCond, 0)>>),
             C1 |-> Class(DefaultOpts, <<EmF("nothing")>>)], {0, 2, 3}, 3, {0, 1})}
-U_C14(zz) == {d \in U_C01(0) \cup U_C06(0) \cup U_C14_End(0) : NoBegins(d) /\ NoRawCallable(d)}
+U_C14(zz) == {d \in U_C01(0) \cup U_C06(0) \cup U_C14_End(0) \cup U_Long(0) : NoBegins(d) /\ NoRawCallable(d)}
 IsScan(d) == d.prog["C0"].fields[2].k = "Data" /\ d.prog["C0"].fields[2].size.m \in {"marker", "regex"}
-U_C14_Q(zz) == {d \in {e \in U_C01_Data(0) : e.prog["C0"].opts.endian = "none"} \cup U_C01_Before(0) \cup U_C10_Back(0) \cup U_C08_Nest(0) \cup U_C14_End(0)
+U_C14_Q(zz) == {d \in {e \in U_C01_Data(0) : e.prog["C0"].opts.endian = "none"} \cup U_C01_Before(0) \cup U_C10_Back(0) \cup U_C08_Nest(0) \cup U_C14_End(0) \cup U_Long(0)
                    \cup {e \in U_C10_Flat(0) : e.prog["C0"].fields[2].mv.kind = "shift"}
                    \cup {e \in U_C08_Until(0) : e.prog["C0"].fields[2].aligned = 0 /\ e.prog["C0"].fields[2].when = NoCond}
                    \cup {e \in U_C06(0) : Len(e.prog["C0"].fields) = 2 /\ e.prog["C0"].fields[1].k = "Data"}
@@ -421,6 +469,7 @@ PickU(n) ==
       [] n = "U_C08_Desc" -> U_C08_Desc(0)
       [] n = "U_C08_Emb" -> U_C08_Emb(0)
       [] n = "U_C10_Desc" -> U_C10_Desc(0)
+      [] n = "U_C10_Kw" -> U_C10_Kw(0)
       [] n = "U_C04_Lone" -> U_C04_Lone(0)
       [] n = "U_C01_Root" -> U_C01_Root(0)
       [] n = "U_C08" -> U_C08(0)
@@ -443,6 +492,7 @@ PickU(n) ==
       [] n = "U_C01" -> U_C01(0)
       [] n = "U_C01_Q" -> U_C01_Q(0)
       [] n = "U_C14_End" -> U_C14_End(0)
+      [] n = "U_Long" -> U_Long(0)
       [] n = "U_C14" -> U_C14(0)
       [] n = "U_C14_Q" -> U_C14_Q(0)
 =============================================================================
